@@ -151,9 +151,11 @@ theorem C06_empty_method_rejected (cfg : Cfg) (t line rest : Bytes) (hflag : cfg
         | none => simp [hr] at hcr
         | some lr => simp only [hr, Option.some.injEq, Prod.mk.injEq] at hcr; exact ⟨lr.1, hcr.1.symm⟩
   obtain ⟨l', rfl⟩ := hline
-  have hpl : Px.Parser.processLine cfg.pcfg (Px.Parser.init .request) (SP :: t) = .error .httpProtocol := by
+  have hpl : ∀ p : Px.Parser.Parser, p.ty = .request →
+      Px.Parser.processLine cfg.pcfg p (SP :: t) = .error .httpProtocol := by
+    intro p hty
     unfold Px.Parser.processLine
-    simp only [hcr, Px.Parser.init]
+    simp only [hcr, hty]
     have h3 : ∃ tl, splitN1 SP 2 (SP :: l') = [] :: tl := by
       simp [splitN1, splitOnce1]
     obtain ⟨tl, htl⟩ := h3
@@ -163,25 +165,30 @@ theorem C06_empty_method_rejected (cfg : Cfg) (t line rest : Bytes) (hflag : cfg
     | [_] => rfl
     | [_, _] => rfl
     | _ :: _ :: _ :: _ => rfl
+  have hstep : ∀ p : Px.Parser.Parser, p.ty = .request → p.state = .initialized →
+      Px.Parser.stepOnce cfg.pcfg p (SP :: t) = .error .httpProtocol := by
+    intro p hty hs
+    unfold Px.Parser.stepOnce
+    simp [hs, Px.Parser.PState.num, hpl p hty]
+  have hloop : ∀ (f : Nat) (p : Px.Parser.Parser), p.ty = .request → p.state = .initialized →
+      Px.Parser.loop cfg.pcfg (f + 1) p true (SP :: t) = .error .httpProtocol := by
+    intro f p hty hs
+    rw [Px.Parser.loop]
+    simp [hs, hstep p hty hs]
   have hparse : Px.Parser.parse cfg.pcfg (Px.Parser.init .request) (SP :: t) = .error .httpProtocol := by
     unfold Px.Parser.parse
-    simp only [Px.Parser.init, List.length_cons]
-    have : Px.Parser.stepOnce cfg.pcfg
-        { ty := .request, totalSize := 0 + (t.length + 1), buffer := none } (SP :: t) = .error .httpProtocol := by
-      unfold Px.Parser.stepOnce
-      have hp' := hpl
-      simp only [Px.Parser.init] at hp'
-      unfold Px.Parser.processLine at hp' ⊢
-      simp only [Px.Parser.PState.num] at hp' ⊢
-      simpa using hp'
-    simp [Px.Parser.loop, this]
+    have hd : decide ((SP :: t).length > 0) = true := by simp
+    simp only [Px.Parser.init, hd]
+    rw [show (SP :: t).length + 8 = ((SP :: t).length + 7) + 1 from rfl, hloop _ _ rfl rfl]
   have hreq : reqParse cfg {} (SP :: t) = .error (.parser .httpProtocol) := by
     unfold reqParse Px.PP.parseWith
     have hp' := hparse
     simp only [Px.Parser.init] at hp'
     simp [hflag, hp', Px.Parser.init]
-  unfold handleData parseFirst
-  simp [hreq, Px.Parser.init]
+  rw [handleData_first cfg {} _ (by decide)]
+  unfold parseFirst
+  rw [hreq]
+  rfl
 
 /-- **C06: the web server answers a non-UTF-8 path with 400 (eb09b1e).**  Whenever the web
 server plugin is the selected plugin (`webGuard`: the modelled head of
@@ -191,7 +198,7 @@ plugin, `True` returned, must-flush set and read interest dropped — for every 
 file behaviour `inner`. -/
 theorem C06_web_bad_path_rejected (cfg : Cfg) (inner : Nat → Px.Parser.Parser → PluginRes) (webPid : Nat)
     (st : St) (data : Bytes) (rq : Px.Parser.Parser) (path : Bytes)
-    (hcfg : cfg.onComplete = webGuard cfg.badRequest webPid inner)
+    (hcfg : cfg.onComplete = webGuard cfg.badRequest webPid inner) (hr : reading st = true)
     (hst : st.request.state ≠ .complete) (hp : reqParse cfg st data = .ok rq) (hc : rq.state = .complete)
     (hproto : handlerProtocol rq ≠ .unknown) (hd : discover cfg.plugins (handlerProtocol rq).num = some webPid)
     (hpath : rq.path = some path) (hne : path ≠ []) (hbad : Px.Url.utf8Valid path = false) :
@@ -211,11 +218,20 @@ theorem C06_web_bad_path_rejected (cfg : Cfg) (inner : Nat → Px.Parser.Parser 
     have hu : (handlerProtocol rq == Proto.unknown) = false := by simpa using hproto
     simp [hp, hc, hu, hd, hoc, afterPlugin]
   refine ⟨by rw [hhd], by rw [hhd], ?_, ?_⟩
-  · rw [tick_eq, hhd]
-    have : st.escaped = false ∨ st.escaped = true := by cases st.escaped <;> simp
-    rcases this with he | he <;> simp [he]
-    sorry
+  · have he : st.escaped = false := by
+      simp only [reading, Bool.and_eq_true, Bool.not_eq_true'] at hr
+      exact hr.1.2
+    rw [tick_eq, hhd]
+    simp [he]
   · exact tick_stops cfg st data (Or.inl (by rw [hhd]))
+
+-- non-vacuity of the two theorems above: their hypotheses hold for the former finding inputs
+example : splitCRLF (SP :: b "http://h/ HTTP/1.1\r\n\r\n") = some (b " http://h/ HTTP/1.1", b "\r\n") := by
+  decide +kernel
+example : (handleData { plugins := [[3], [2]], onComplete := webGuard Px.Gen.pkt_BAD_REQUEST_RESPONSE_PKT 1 (fun _ _ => .crash []) } {}
+    (b "GET /" ++ [0xff] ++ b " HTTP/1.1\r\n\r\n")).2 = (.served 1 true, true) := by decide +kernel
+example : (handleData { plugins := [[3], [2]], onComplete := webGuard Px.Gen.pkt_BAD_REQUEST_RESPONSE_PKT 1 (fun _ _ => .ret [Px.Gen.pkt_NOT_FOUND_RESPONSE_PKT] true) } {}
+    (b "GET /ok HTTP/1.1\r\n\r\n")).1.buffer = [Px.Gen.pkt_NOT_FOUND_RESPONSE_PKT] := by decide +kernel
 
 /-- non-vacuity: the plugin contract is satisfiable, and the three classes all occur -/
 example : NoCrash {} := ⟨fun _ _ _ h => (by cases h), fun _ _ _ _ h => (by cases h)⟩
